@@ -17,6 +17,7 @@ import (
 	"encoding/json"
 	"fmt"
 	"net/url"
+	"os"
 	"strings"
 	"testing"
 	"time"
@@ -44,15 +45,15 @@ type c12Code struct {
 }
 
 type c12Case struct {
-	Caller      string `json:"caller_client"`
-	Secret      string `json:"secret"`
-	VerifierK   string `json:"verifier"`
-	Code        string `json:"code"`
-	RedirectK   string `json:"redirect"`
-	Placement   string `json:"placement"`
-	Status      int    `json:"status"`
-	MayRelease  bool   `json:"may_release_by_oracle"`
-	Note        string `json:"note,omitempty"`
+	Caller     string `json:"caller_client"`
+	Secret     string `json:"secret"`
+	VerifierK  string `json:"verifier"`
+	Code       string `json:"code"`
+	RedirectK  string `json:"redirect"`
+	Placement  string `json:"placement"`
+	Status     int    `json:"status"`
+	MayRelease bool   `json:"may_release_by_oracle"`
+	Note       string `json:"note,omitempty"`
 }
 
 func c12S256(v string) string {
@@ -63,7 +64,9 @@ func c12S256(v string) string {
 func TestVerifC12(t *testing.T) {
 	rep := newVerifReport("C12", "full corner product: caller client (secret clients A,B,X-with-special-characters; secret-less P,Q) x secret right/wrong/absent/other-client's x verifier right/wrong/absent x code (fresh with S256 challenge, fresh with default-method challenge, fresh without challenge, issued to the other client, re-signed copies expired 2 s .. 17 h ago, payload-tampered, foreign-key re-signed, other users) x redirect same/different x credentials in header (also URL-encoded) or form; codes come from the real authorize endpoint with two logged-in users; released tokens are decoded (iss, aud, sub, nonce, exp, JWKS signature) and the access token is taken to userinfo; class = (caller kind, secret, verifier, code kind, redirect, placement, outcome)")
 	defer rep.Finish()
-	clients := []c12Client{{"client-a", "secret-a"}, {"client-b", "secret-b"}, {"cl ient+x&y", "se cret%+/="}, {"pkce-p", ""}, {"pkce-q", ""}}
+	clients := []c12Client{{"client-a", "secret-a"}, {"client-b", "secret-b"}, {"cl ient+x&y", "se cret%+/="}, {"pkce-p", ""}, {"pkce-q", ""},
+		// a secret with characters a configuration loader might be tempted to interpret (environment references)
+		{"client-d", "s3cr3t$Key-${HOME}-$1-for-d"}}
 	var y strings.Builder
 	y.WriteString("openid_connect_idp:\n    default_email_domain: \"mail.verif.test\"\n    clients:\n")
 	for _, c := range clients {
@@ -203,6 +206,9 @@ func TestVerifC12(t *testing.T) {
 		secrets := []sec{{"right", caller.Secret}, {"wrong", caller.Secret + "x"}, {"absent", ""}, {"other-clients", other}}
 		if caller.Secret == "" {
 			secrets = []sec{{"absent", ""}, {"wrong", "guess"}, {"other-clients", "secret-a"}}
+		}
+		if ex := os.ExpandEnv(caller.Secret); ex != caller.Secret {
+			secrets = append(secrets, sec{"environment-expanded", ex}, sec{"dollar-words-removed", os.Expand(caller.Secret, func(string) string { return "" })})
 		}
 		for _, code := range codes {
 			vers := []ver{{"absent", ""}, {"wrong", "not-the-verifier-0123456789012345678901234567890"}}
